@@ -135,6 +135,32 @@ REAL_TEXTS = [('.m1', ['m1'], [], None), ('.m1, .m2', ['m1', 'm2'], [], None), (
               ('A: .m5', ['m5'], [], None), ('! A:.m4', [], ['m4'], 'implicit')]
 
 
+def fold(st, entry):
+    """the documented accumulation rule on a reference state: ('const', bool) | ('acc', sure, maybe, excluded, star)"""
+    text, A, X, star = entry
+    if A == 'bad':
+        return st
+    if A is None:
+        return ('const', False)
+    if st[0] == 'const':
+        return ('acc', [], list(A), list(X), True) if star is not None else ('acc', list(A), [], list(X), False)
+    _, sure, maybe, XX, sflag = st
+    XX = X + XX
+    if star == 'explicit':
+        return ('acc', [], maybe + sure + A, XX, True)
+    if A:
+        return ('acc', A + sure, maybe, XX, False)
+    return ('acc', sure, maybe, XX, sflag)
+
+
+def verdict(st, nm):
+    """(must_select, must_reject) for a message named nm"""
+    if st[0] == 'const':
+        return st[1], not st[1]
+    _, sure, maybe, XX, sflag = st
+    return ((sflag or nm in sure) and nm not in XX), (nm in XX or (not sflag and nm not in sure and nm not in maybe))
+
+
 def real_sequences(ctx, case):
     """the same rule through the REAL parser: interleaved filter / breakpoint commands with real texts, evaluated on real messages"""
     n = case
